@@ -204,14 +204,15 @@ CLAIMED = {
              "through every history (induction over the operation list: a generated key never equals a stored one); the "
              "first id-less feature of an update is stored under <featuretype>_(live counter+1); over every history the persisted "
              "counters only grow and never run ahead of the live ones (numbering continues across updates and reopenings). Tied to interface.py/"
-             "create.py by every history up to length 3 (thorough 4) over a 12-operation alphabet plus 500 random "
-             "histories up to length 8, on file databases, comparing after EVERY step the four tables (fresh connection), "
+             "create.py by every history up to length 3 (thorough 4) over a 13-operation alphabet plus 500 random "
+             "histories up to length 8 on GFF3 databases and every history up to length 2 (thorough 3) over a 10-operation alphabet "
+             "plus 150 random ones on GTF databases, all on files, comparing after EVERY step the four tables (fresh connection), "
              "the in-memory counters, the .bak content, the outcome class and the long-lived object's own view (db[id] for a "
              "pool of ids, count_features_of_type per type, ids iterated) inside Coq.",
         note="Trusted: Coq kernel + vm_compute; Model/Machine.v and Model/Import.v hand-written, tied by the correspondence; "
              "sqlite transaction behaviour (an exception during update rolls back the creator's uncommitted connection once it "
              "is garbage collected) is modelled as 'disk unchanged' and checked by reading the file through a fresh "
-             "connection after gc. GFF3-dialect databases only; add_relation with an optional re-typing child_func; in-memory "
+             "connection after gc. GFF3- and GTF-dialect databases (the machine is parametrised by the stored dialect's importer); add_relation with an optional re-typing child_func; in-memory "
              "counters after a failed update follow the code (advanced, not persisted). Finding F20 (mid-import "
              "commit in _add_duplicate made failed 'merge' updates half-applied) was found by this check and fixed in /repo.",
         technique="Coq proof of the machine laws (per-step characterisations, invariants by induction over histories) + exhaustive small-scope differential correspondence over operation histories (the refinement itself)",
